@@ -488,6 +488,12 @@ def has_xy(case):
     return any(l in "XY" for t in case["op"] for _, l in t[0])
 
 
+def sympy_refusal(be, r):
+    """SympySimulator refuses (loud TypeError) states whose amplitudes sympy leaves as unevaluated symbolic exponentials
+    (`if frequency - threshold >= 0` on a Relational): a refusal, not a wrong value; counted as not evaluated."""
+    return be == "sympy" and r[0] == "exc" and r[1] == "TypeError" and "truth value of Relational" in r[2]
+
+
 def check_exact(ck, case, impl, orc, model=None):
     """Property oracle on one exact-mode case (n_shots None or 0): every API against numpy; then the Coq model."""
     feat = feature(case)
@@ -513,6 +519,9 @@ def check_exact(ck, case, impl, orc, model=None):
             continue
         if r[0] == "ok" and close(r[1], orc["E"]):
             continue
+        if sympy_refusal(be, r):
+            ck.not_evaluated += 1
+            continue
         desc = "%s (%s backend, %s) returned %s, <psi|H|psi> = %r" % (name, be, feat, r[1] if r[0] == "ok" else "%s: %s" % r[1:], orc["E"])
         if be == "sympy" and freq_like and r[0] == "ok" and close(r[1], reversed_oracle(case)["E"]):
             ck.violation(SIG_SYMPY_ORDER, desc + " — the value for the operator with the qubit order reversed (sympy's statevector is "
@@ -526,7 +535,9 @@ def check_exact(ck, case, impl, orc, model=None):
     # ---- variance and standard error
     if "V" in impl and not orc["near_threshold"]:
         r = impl["V"]
-        if not (r[0] == "ok" and close(r[1], orc["V"], 1e-8)):
+        if sympy_refusal(be, r):
+            ck.not_evaluated += 1
+        elif not (r[0] == "ok" and close(r[1], orc["V"], 1e-8)):
             desc = "get_variance (%s backend, %s) returned %s, sum c_k^2 (1 - <P_k>^2) = %r" % (
                 be, feat, r[1] if r[0] == "ok" else "%s: %s" % r[1:], orc["V"])
             if case["dmr"] is not None and (r[0] == "exc" or close(r[1], oracle(dict(case, dmr=None))["V"], 1e-6)):
@@ -540,7 +551,11 @@ def check_exact(ck, case, impl, orc, model=None):
     if "SE" in impl:
         r = impl["SE"]
         v_ok = "V" in impl and impl["V"][0] == "ok"
-        if r[0] == "ok" and abs(r[1]) > 1e-15:
+        if case["shots"]:
+            if r[0] == "ok" and not orc["near_threshold"] and not close(r[1], math.sqrt(max(orc["V"], 0.0) / case["shots"]), 1e-8):
+                ck.violation("C02/get_standard_error/%s/%s" % (be, feat), "n_shots=%d on an exact distribution: standard error %r, sqrt(variance/n_shots) = %r"
+                             % (case["shots"], r[1], math.sqrt(max(orc["V"], 0.0) / case["shots"])), rep)
+        elif r[0] == "ok" and abs(r[1]) > 1e-15:
             ck.violation("C02/get_standard_error/%s/exact-mode-nonzero" % be, "n_shots falsy but standard error %r" % (r[1],), rep)
         elif r[0] == "exc" and v_ok:
             ck.violation("C02/get_standard_error/%s/%s" % (be, feat), "raises %s although get_variance succeeds" % (r[1],), rep)
@@ -669,7 +684,7 @@ def basis_gate_stream(ck, gen_ok=True):
         except Exception as e:                                              # noqa
             impls.append("Err:" + type(e).__name__)
         exprs.append("show_basis_gates basis_table %s" % coq_list(["(%s, %s)" % (coq_Z(q), coq_str(l)) for q, l in t]))
-    model = model_eval(ck, "basis", exprs, shard=80, jobs=4) if gen_ok else None
+    model = model_eval(ck, "basis", exprs, shard=80, jobs=3) if gen_ok else None
     if model is None:
         model = [None] * len(terms)
     for t, a, b in zip(terms, impls, model):
@@ -729,7 +744,7 @@ def dispatch_stream(ck, gen_ok=True):
         impls.append(impl)
         exprs.append("run_dispatch freq_cond sv_cond sv_exact_cond %s" % coq_cfg(impl["cfg"]))
     cases = kept
-    model = model_eval(ck, "dispatch", exprs, shard=100, jobs=4) if gen_ok else None
+    model = model_eval(ck, "dispatch", exprs, shard=100, jobs=3) if gen_ok else None
     if model is None:
         ck.notes["dispatch_expected_from"] = "python restatement of the documented routing (Coq model not evaluable in this run)"
         model = ["%s|%s" % py_dispatch(impl["cfg"]) for impl in impls]
@@ -890,7 +905,7 @@ def stream_exact(ck, gen_ok, timing):
         todo.append((case, impl, orc, use_coq))
     timing["exact-impl"] = round(time.time() - T0, 1)
     T0 = time.time()
-    model = model_eval(ck, "cases", exprs, shard=max(8, (len(exprs) + 3) // 4) if quick else 60, jobs=4, timeout=1500)
+    model = model_eval(ck, "cases", exprs, shard=max(8, (len(exprs) + 3) // 4) if quick else 60, jobs=3, timeout=1500)
     it = iter(model) if model is not None else None
     for case, impl, orc, use_coq in todo:
         try:
@@ -916,9 +931,41 @@ def stream_beyond(ck):
                              {"kind": "beyond", "backend": be, "shots": shots, "term": term, "api": api})
 
 
+def check_sympy_shots(ck, case, impl, orc, notes):
+    """SympySimulator with n_shots set: terms with a basis change are evaluated on exact frequencies, Z-type / identity terms
+    through Backend.simulate's empty-circuit shortcut, which SAMPLES.  Exact checks only where outcomes are deterministic;
+    otherwise no exception, the bound |estimate| <= sum |c_k|, 0 <= variance <= sum |c_k|^2 (agreement recorded as support)."""
+    rep = {"kind": "case", "case": jcase(case)}
+    bound = sum(abs(coef_c(t)) for t in case["op"]) + 1e-9
+    vbound = sum(abs(coef_c(t)) ** 2 for t in case["op"]) + 1e-9
+    for api, name in (("E", "get_expectation_value"), ("Ef", "_get_expectation_value_from_frequencies"), ("V", "get_variance")):
+        if api not in impl:
+            continue
+        r = impl[api]
+        if sympy_refusal("sympy", r):
+            ck.not_evaluated += 1
+            continue
+        want = orc["E"] if api != "V" else 0.0
+        if r[0] == "exc":
+            sig = SIG_SYMPY_FREQ if has_xy(case) else "C02/%s/sympy/n_shots/raises" % name
+            ck.violation(sig, "%s (sympy backend, n_shots=%d) raises %s: %s" % ((name, case["shots"]) + r[1:]), rep)
+        elif orc["deterministic"] and not close(r[1], want, 1e-8):
+            ck.violation("C02/%s/sympy/n_shots/deterministic" % name, "deterministic outcomes, n_shots=%d: returned %r, exact %r" % (case["shots"], r[1], want), rep)
+        elif api != "V" and abs(r[1]) > bound:
+            ck.violation("C02/%s/sympy/n_shots/estimate-exceeds-bound" % name, "|estimate| = %r > sum |c_k| = %r" % (abs(r[1]), bound), rep)
+        elif api == "V" and not (-1e-9 <= r[1].real <= vbound and abs(r[1].imag) < 1e-9):
+            ck.violation("C02/get_variance/sympy/n_shots/out-of-range", "variance %r outside [0, sum |c_k|^2 = %r]" % (r[1], vbound), rep)
+        elif api == "E":
+            sigma = math.sqrt(max(orc["V"], 0) / case["shots"]) * max(1, len(case["op"]))
+            notes["n"] += 1
+            notes["within_5_sigma"] += int(abs(r[1] - orc["E"]) <= 5 * sigma + 1e-9)
+
+
 def stream_sympy(ck):
     rng, quick = ck.rng, ck.tier == "quick"
-    ck.stream("sympy", "SympySimulator, 1-2 qubits, <= 4 gates: get_expectation_value (native route), get_variance, frequency route vs numpy")
+    ck.stream("sympy", "SympySimulator, 1-2 qubits, <= 4 gates: get_expectation_value (native route), get_variance, frequency route vs numpy; "
+              "a third of the cases with n_shots=100 (exact where deterministic, bounds otherwise), some with an empty circuit")
+    snotes = ck.notes.setdefault("sympy_n_shots_support_only", {"n": 0, "within_5_sigma": 0})
     n_sym = 24 if quick else 120
     for i in range(n_sym):
         n = rng.choice([1, 2, 2])
@@ -929,15 +976,19 @@ def stream_sympy(ck):
         case["op"] = case["op"][:3]
         if i % 4 == 3:
             case["op"] = [t for t in case["op"] if all(l == "Z" for _, l in t[0])] or [[[[0, "Z"]], Fraction(3, 4), Fraction(0)]]
+        if i % 3 == 1:
+            case["shots"] = 100          # sympy does not sample: the frequency route on exact frequencies must give the exact value
+        if i % 6 == 5:
+            case["segs"] = [[[], None]]  # empty circuit: frequency route from the all-zero state (1D ndarray handed back)
         try:
             orc = oracle(case)
         except Exception as e:                                              # noqa
             ck.not_evaluated += 1
             continue
-        impl = safe_impl(ck, "sympy", case, apis=("E", "V", "Ef") if i % 2 == 0 else ("E",))
-        record(ck, "sympy", case, orc)
+        impl = safe_impl(ck, "sympy", case, apis=("E", "V", "Ef") if (i % 2 == 0 or case["shots"]) else ("E",))
+        record(ck, "sympy", case, orc, ["n_shots" if case["shots"] else "exact"])
         if impl is not None:
-            check_exact(ck, case, impl, orc, None)
+            (check_sympy_shots(ck, case, impl, orc, snotes) if case["shots"] else check_exact(ck, case, impl, orc, None))
     # designated cases: the witness of the frequency-route finding (X term), and a Z term on an asymmetric 2-qubit state
     # (bit order of the statevector handed to _statevector_to_frequencies)
     h0 = {"name": "H", "target": [0], "control": None, "k": None, "var": False}
@@ -945,12 +996,14 @@ def stream_sympy(ck):
     wit = {"n": 1, "prefix": [], "pass_isv": False, "segs": [[[h0], None]], "op": [[[[0, "X"]], Fraction(1), Fraction(0)]], "ctype": False,
            "backend": "sympy", "shots": None, "dmr": None}
     wit2 = dict(wit, n=2, segs=[[[x0], None]], op=[[[[0, "Z"]], Fraction(1), Fraction(0)]])
-    for w_, apis in ((wit, ("E", "V")), (wit2, ("E", "V", "Ef"))):
+    wit3 = dict(wit, n=2, segs=[[[h0, x0], None]], op=[[[[0, "X"], [1, "Z"]], Fraction(1, 2), Fraction(0)], [[], Fraction(3, 4), Fraction(0)]], shots=10)
+    wit4 = dict(wit, segs=[[[], None]])
+    for w_, apis in ((wit, ("E", "V", "Ef")), (wit2, ("E", "V", "Ef")), (wit3, ("E", "V", "Ef")), (wit4, ("E", "V"))):
         impl = safe_impl(ck, "sympy", w_, apis=apis)
         orc = oracle(w_)
         record(ck, "sympy", w_, orc, ["witness"])
         if impl is not None:
-            check_exact(ck, w_, impl, orc, None)
+            (check_sympy_shots(ck, w_, impl, orc, snotes) if w_["shots"] else check_exact(ck, w_, impl, orc, None))
 
 
 def stream_sampled(ck):
